@@ -306,6 +306,29 @@ pub fn run_salt(scn: &Scenario, ctx: &mut Ctx) {
                 if digest_of(&s1) == digest_of(&s2) {
                     ctx.violate("C17.decorrelate", "two independent salted adds of the same assertion have the same digest".to_string());
                 }
+                // the batch form: two different assertions handed over in one call
+                let plain2 = Envelope::new_assertion(o.clone(), p.clone());
+                if digest_of(&plain2) != digest_of(&plain) {
+                    ctx.checked();
+                    match guarded(|| (doc.add_assertions_salted(&[plain.clone(), plain2.clone()], true), doc.add_assertions_salted(&[plain.clone(), plain2.clone()], false))) {
+                        Ok((bs, bu)) => {
+                            let added = new_assertions(&doc, &bs);
+                            let subjects_ok = added.len() == 2
+                                && added.iter().any(|a| ident(&a.subject(), &plain))
+                                && added.iter().any(|a| ident(&a.subject(), &plain2))
+                                && added.iter().all(|a| a.assertions().len() == 1 && a.assertions()[0].as_predicate().map(|pp| digest_of(&pp) == salt_digest()).unwrap_or(false));
+                            if !subjects_ok || !ident(&bs.subject(), &doc.subject()) {
+                                ctx.violate("C17.placement", format!("add_assertions_salted(two assertions, true) added {} assertions, or not the two that were handed over each with exactly one salt", added.len()));
+                            }
+                            let chained = doc.add_assertion(p.clone(), o.clone()).add_assertion(o.clone(), p.clone());
+                            if !ident(&bu, &chained) {
+                                ctx.violate("C17.unsalted", "add_assertions_salted(.., false) differs from adding the same assertions one by one".to_string());
+                            }
+                            ctx.probe("salted-batch");
+                        }
+                        Err(pn) => ctx.violate_sig("C16.no-panic", format!("add_assertions_salted panicked: {}", pn), pn),
+                    }
+                }
                 // the envelope form: the assertion being added already carries an assertion of its own, or is obscured
                 let variant = st.arg(3) % 3;
                 let pre: Envelope = match variant {
@@ -931,6 +954,13 @@ pub fn run_attach(scn: &Scenario, ctx: &mut Ctx) {
                         Ok(Err(_)) => ctx.probe("malformed-attachment-rejected"),
                         Err(p) => ctx.violate_sig("C16.no-panic", format!("attachments() panicked on a malformed attachment: {}", p), p),
                     }
+                    // ... and by the container that loads all attachments of an envelope
+                    ctx.checked();
+                    match guarded(|| bc_envelope::Attachments::try_from_envelope(&bad)) {
+                        Ok(Ok(_)) => ctx.violate("C19.invalid", format!("Attachments::try_from_envelope loaded an envelope with a malformed attachment assertion (case {}) without reporting it", st.arg(3) % 6)),
+                        Ok(Err(_)) => ctx.probe("container-rejects-malformed"),
+                        Err(p) => ctx.violate_sig("C16.no-panic", format!("Attachments::try_from_envelope panicked on a malformed attachment: {}", p), p),
+                    }
                     // ... whatever filter is given (including filters that would not select the malformed one)
                     for vf in 0..4usize {
                         for cf in [None, Some("https://example.com/v1"), Some("https://nobody")] {
@@ -956,6 +986,47 @@ pub fn run_attach(scn: &Scenario, ctx: &mut Ctx) {
                     }
                     Ok(Err(e)) => ctx.violate("C19.all", format!("attachments() failed on well-formed attachments: {}", e)),
                     Err(p) => ctx.violate_sig("C16.no-panic", format!("attachments() panicked: {}", p), p),
+                }
+                // the container route: the same contributions collected in an `Attachments` value and added in one go
+                // give the same attachments, and loading the container back from the delivered envelope finds each one
+                ctx.checked();
+                let via_container = guarded(|| {
+                    let mut c = bc_envelope::Attachments::new();
+                    for (pd, v, cf) in &contrib {
+                        c.add(w.docs[*pd].env.clone(), VENDORS[*v], CONFORMS[*cf]);
+                    }
+                    let assembled = c.add_to_envelope(base.clone());
+                    let loaded = bc_envelope::Attachments::try_from_envelope(&rx).map_err(|e| e.to_string());
+                    (assembled, loaded)
+                });
+                match via_container {
+                    Ok((assembled, loaded)) => {
+                        // (compared by digest and by what the query returns: two contributions whose payloads have the same
+                        // digest but differ in what is elided inside are one attachment, and which copy is kept is not fixed)
+                        let got: Option<BTreeSet<_>> = assembled.attachments().ok().map(|l| l.iter().filter_map(triple).collect());
+                        if digest_of(&assembled) != digest_of(&e1) || got.as_ref() != Some(&model) {
+                            ctx.violate("C19.all", "adding the attachments through an Attachments container gives another envelope than adding them one by one".to_string());
+                        }
+                        match loaded {
+                            Ok(c) => {
+                                for a in e1.assertions_with_predicate(known_values::ATTACHMENT) {
+                                    match c.get(&bc_components::Digest::from_data(digest_of(&a))) {
+                                        Some(x) if ident(x, &a) => {}
+                                        _ => {
+                                            ctx.violate("C19.all", "an added attachment is not found (identical) in the container loaded from the envelope".to_string());
+                                            break;
+                                        }
+                                    }
+                                }
+                                if c.is_empty() != model.is_empty() {
+                                    ctx.violate("C19.all", "the container loaded from the envelope is empty although attachments were added".to_string());
+                                }
+                                ctx.probe("container-route");
+                            }
+                            Err(e) => ctx.violate("C19.all", format!("Attachments::try_from_envelope failed on well-formed attachments: {}", e)),
+                        }
+                    }
+                    Err(p) => ctx.violate_sig("C16.no-panic", format!("the Attachments container panicked: {}", p), p),
                 }
                 // every filter combination
                 let mut fr = SimRng::new(st.arg(2) ^ 0xf117e5);
